@@ -1,4 +1,129 @@
-From Core Require Import GenQueryFacts.
+(** C01 -- Derivatives equal stoichiometry x rates over fully resolved values.
+
+    ONLY theorem statements (written out in full), each closed by [exact <lemma>] and followed by
+    [Print Assumptions].  The statements are about the executable model of [Model._create_cache],
+    [Model._get_args], [Model.__call__], [Model._get_right_hand_side] / [get_right_hand_side]
+    (../core/Cache.v, Query.v -- tied to the source by the correspondence check of harness/c01.py
+    and by [C01_facts_pinned]) run with the sorter facts [gen_sort_facts] REGENERATED from
+    /repo/src/mxlpy/model.py, for EVERY meaning [fsem]/[fsemN] of the Python functions, every
+    model, state and time.  Vocabulary ([WF], [comp_holds], [rhs_spec]): Spec.v. *)
+From Coq Require Import ZArith List Bool.
+From MxlBase Require Import ListX.
+From Core Require Import Sort GenSortFacts Model Cache Query GenQueryFacts.
+From Core Require FnLib.
+From CoreP Require Import Spec ProofsStoich ProofsTop ProofsRhs ExModel.
+Import ListNotations.
+
 Theorem C01_facts_pinned : gen_query_facts = mkQueryFacts true true true.
 Proof. vm_compute. reflexivity. Qed.
 Print Assumptions C01_facts_pinned.
+
+(** C01-a: in the table [e] that [_get_args] returns, time, the supplied variables and the plain
+    parameters are the supplied ones, and every flux / derived quantity / surrogate output is its
+    function applied to the values its named arguments have in the SAME table.
+
+    Two guards relative to the first draft of this statement (both needed: see
+    [C01_args_draft_refuted] below):
+    - [NoDup (keys vars)]: the supplied state is a Python dict; the association-list model of it
+      must not bind a variable twice (the dict union keeps the LAST binding);
+    - [_get_args] pops the data sets before returning, so a component that takes a data set as
+      argument holds in the returned table EXTENDED BY THE DATA SETS ([env_of_dict (m_dat m) e],
+      4th conjunct); a component none of whose arguments is a data set holds in [e] itself (5th). *)
+Theorem C01_args_fully_resolved :
+  forall fsem fsemN m c vars t e,
+    WF m ->
+    create_cache fsem fsemN gen_sort_facts m = Val c ->
+    NoDup (keys vars) ->
+    incl (keys vars) (keys (m_var m)) ->
+    get_args_raw fsem fsemN m c vars t = Val e ->
+    lookup time_name e = Some t
+    /\ (forall x v, lookup x vars = Some v -> lookup x e = Some v)
+    /\ (forall p v, In (p, Plain v) (m_par m) -> lookup p e = Some v)
+    /\ (forall nm cmp, In (nm, cmp) (containers m) ->
+          comp_holds fsem fsemN nm cmp (env_of_dict (m_dat m) e))
+    /\ (forall nm cmp, In (nm, cmp) (containers m) ->
+          (forall x, In x (comp_args cmp) -> ~ In x (keys (m_dat m))) ->
+          comp_holds fsem fsemN nm cmp e).
+Proof. exact (args_fully_resolved gen_sort_facts gen_sc). Qed.
+Print Assumptions C01_args_fully_resolved.
+
+(** the draft statement (no [NoDup (keys vars)], [comp_holds] in [e] for every component) is
+    false of the model: (1) a derived quantity reading a data set does not hold in the returned
+    table because the data key was popped; (2) a state list binding a variable twice *)
+Theorem C01_args_draft_refuted :
+  exists m c vars t e,
+    WF m /\ create_cache FnLib.fsem FnLib.fsemN gen_sort_facts m = Val c
+    /\ NoDup (keys vars) /\ incl (keys vars) (keys (m_var m))
+    /\ get_args_raw FnLib.fsem FnLib.fsemN m c vars t = Val e
+    /\ (exists nm cmp, In (nm, cmp) (containers m) /\ ~ comp_holds FnLib.fsem FnLib.fsemN nm cmp e)
+    /\ exists vars' e' x v,
+         incl (keys vars') (keys (m_var m))
+         /\ get_args_raw FnLib.fsem FnLib.fsemN m c vars' t = Val e'
+         /\ lookup x vars' = Some v /\ lookup x e' <> Some v.
+Proof. exact args_draft_refuted. Qed.
+Print Assumptions C01_args_draft_refuted.
+
+(** C01-b: the vector handed to integrators = stoichiometry x rates over those resolved values, in
+    declaration order, one entry per variable (0 for untouched variables: next theorem).
+    [rhs_spec x rs e] is the sum over all reactions and surrogate fluxes [rn] of [rs] and their
+    entries for [x] of (coefficient value in [e]) * (value of [rn] in [e]). *)
+Theorem C01_rhs_is_stoichiometry_times_rates :
+  forall fsem fsemN m c t y dx,
+    WF m ->
+    create_cache fsem fsemN gen_sort_facts m = Val c ->
+    call fsem fsemN m c t y = Val dx ->
+    exists e,
+      get_args_raw fsem fsemN m c (combine (keys (m_var m)) y) t = Val e
+      /\ length dx = length (m_var m)
+      /\ forall i x, nth_error (keys (m_var m)) i = Some x ->
+           exists v, nth_error dx i = Some v /\ rhs_spec fsem x (all_rxn_entries m) e = Some v.
+Proof. exact (rhs_is_stoichiometry_times_rates gen_sort_facts gen_sc). Qed.
+Print Assumptions C01_rhs_is_stoichiometry_times_rates.
+
+Theorem C01_untouched_variable_zero :
+  forall fsem x rs e v,
+    (forall rn ent, In (rn, ent) rs -> ~ In x (keys ent)) -> rhs_spec fsem x rs e = Some v -> v = 0%Z.
+Proof. exact untouched_variable_zero. Qed.
+Print Assumptions C01_untouched_variable_zero.
+
+(** the same holds for the named form, for ANY supplied state dict: [_get_right_hand_side] over
+    the table of [_get_args] is stoichiometry x rates, keyed by the variables in declaration order *)
+Theorem C01_named_rhs_is_stoichiometry_times_rates :
+  forall fsem fsemN m c vars t e d,
+    WF m -> create_cache fsem fsemN gen_sort_facts m = Val c ->
+    incl (keys vars) (keys (m_var m)) ->
+    get_args_raw fsem fsemN m c vars t = Val e ->
+    rhs_of_args fsem c (keys (m_var m)) e = Val d ->
+    keys d = keys (m_var m)
+    /\ forall x, In x (keys (m_var m)) ->
+         exists v, lookup x d = Some v /\ rhs_spec fsem x (all_rxn_entries m) e = Some v.
+Proof. exact (rhs_of_args_top gen_sort_facts gen_sc). Qed.
+Print Assumptions C01_named_rhs_is_stoichiometry_times_rates.
+
+(** C01-c: the entry points return the same numbers: positional call = named right-hand side *)
+Theorem C01_entry_points_agree :
+  forall fsem fsemN m c t y dx,
+    WF m -> create_cache fsem fsemN gen_sort_facts m = Val c ->
+    call fsem fsemN m c t y = Val dx ->
+    get_rhs fsem fsemN m c (combine (keys (m_var m)) y) t = Val (combine (keys (m_var m)) dx).
+Proof. exact (entry_points_agree gen_sort_facts gen_sc). Qed.
+Print Assumptions C01_entry_points_agree.
+
+(** non-vacuity: the model of ExModel.v (derived chain 6 -> 7 -> 8, derived 15 reading a data
+    set, reaction 9 with a numeric and a computed coefficient, reaction 10 with a state-dependent
+    coefficient, 2-output surrogate 11 with flux 12, assignment-defined parameter 2 and variable 4,
+    untouched variable 5) is well formed, its cache is built, and at state (1, 2, 3), time 3 the
+    positional call returns (-13, 129, 0) *)
+Example C01_nonvacuous :
+  WF ex_model /\
+  exists c, create_cache FnLib.fsem FnLib.fsemN gen_sort_facts ex_model = Val c
+    /\ call FnLib.fsem FnLib.fsemN ex_model c 3%Z [1; 2; 3]%Z = Val [-13; 129; 0]%Z
+    /\ exists e, get_args_raw FnLib.fsem FnLib.fsemN ex_model c [(3%N, 1%Z); (4%N, 2%Z); (5%N, 3%Z)] 3%Z = Val e
+         /\ lookup 9%N e = Some 16%Z /\ lookup 10%N e = Some 1%Z /\ lookup 12%N e = Some 3%Z
+         /\ rhs_spec FnLib.fsem 4%N (all_rxn_entries ex_model) e = Some 129%Z.
+Proof.
+  split; [exact ex_model_WF|].
+  eexists. split; [vm_compute; reflexivity|]. split; [vm_compute; reflexivity|].
+  eexists. split; [vm_compute; reflexivity|]. repeat split; vm_compute; reflexivity.
+Qed.
+Print Assumptions C01_nonvacuous.
